@@ -136,3 +136,125 @@ Theorem C07_reapply_example :
 Proof. exact reapply_example. Qed.
 Print Assumptions C07_reapply_example.
 
+
+(* ---- "... and so does applying back what was extracted from the object for a manager's owned
+   fields" (Proofs/ExtractBack*.v): at every reachable state, for a manager whose record was
+   last written by an Apply, extracting the leaves of its record with the key fields that
+   locate them and applying the extract back without force changes no field and no record --
+   provided the extract is a valid plain configuration and every leaf of the record designates
+   a leaf of the object.  The last proviso is necessary: REFUTED without it at a state
+   reachable in two operations (a applies mmm.k.k, b takes mmm.k.k over by an update: a owns
+   the entry mmm.k only, the extracting walker descends into the entry with the selection of
+   the parent level, finds the inner field of the same name, and a's record gains mmm.k.k) --
+   replayed on the implementation: finding F27. ---- *)
+From Coq Require Import List ZArith String Bool Arith Lia.
+From SMD Require Import Model.Value Model.Order Model.PathElem Model.PathSet Model.Schema Model.Walk
+  Model.Validate Model.FieldSet Model.Remove Model.Merge Model.Compare Model.Matcher Model.Reconcile
+  Model.Updater
+  Spec.PathsAsSets Spec.RefValid Spec.Resolve Spec.Agree Spec.RefDiff Spec.Examples
+  Proofs.OrderLaws Proofs.PathSetLaws Proofs.SchemaOk Proofs.FieldSetBase Proofs.FieldSetPaths
+  Proofs.FieldSetWf Proofs.FieldSetLaws Proofs.RemoveAbsent Proofs.RemoveWf Proofs.ResolveLaws
+  Proofs.UpdaterLaws Proofs.UpdaterLaws2 Proofs.MergeLaws Proofs.MergeAgree
+  Proofs.RemoveFrame Proofs.EnLaws Proofs.NodeSet Proofs.KeyFields Proofs.VeqbResolve
+  Proofs.SetCheckers Proofs.ApplyEffect Proofs.RefDiffBoth Proofs.RefDiffLaws Proofs.RefDiffPresent
+  Proofs.ApplyInv Proofs.History Proofs.Reapply.
+From SMD Require Import Proofs.CompareLaws Proofs.KeySync Proofs.PartSel
+  Proofs.ExtractBackDup Proofs.ExtractBackMerge Proofs.ExtractBackNodes Proofs.ExtractBackSet
+  Proofs.ExtractBackCore Proofs.ExtractBackInv.
+From SMD Require Proofs.MergeBase.
+From SMD Require Import Proofs.ExtractBack.
+Theorem C07_extract_apply_back :
+  forall (c : config) (R : typeref -> Prop) (ver : string) (live : value) 
+           (mf : managed) (mgr : string) (r : mrec),
+         setting_ok c R ver ->
+         state_ok c ver live mf ->
+         dup_free (schema_of c ver) (tr_of c ver) live = true ->
+         cfg_return_input_on_noop c = false ->
+         mf_get mgr mf = Some r ->
+         mr_applied r = true ->
+         let ext := extract (schema_of c ver) (tr_of c ver) true live (ps_leaves (mr_set r)) in
+         plain ext = true ->
+         conforms (schema_of c ver) (tr_of c ver) false ext = true ->
+         leaves_are_leaves (schema_of c ver) (tr_of c ver) live (mr_set r) ->
+         prefix_closed (schema_of c ver) (tr_of c ver) (mr_set r) ->
+         interior_class (schema_of c ver) (tr_of c ver) (mr_set r) ->
+         exists mf'' : managed,
+           apply_op c (ver, live) (ver, ext) ver mf mgr false = UOk (None, mf'') /\
+           same_records mf mf''.
+Proof. exact extract_apply_back. Qed.
+Print Assumptions C07_extract_apply_back.
+
+Theorem C07_extract_apply_back_along_every_history :
+  forall (c : config) (R : typeref -> Prop) (ver : string) (ops : list hop) 
+           (mgr : string) (r : mrec),
+         setting_ok c R ver ->
+         Forall (op_ok c ver) ops ->
+         dup_free (schema_of c ver) (tr_of c ver) (fst (run c ver ops)) = true ->
+         mf_get mgr (snd (run c ver ops)) = Some r ->
+         mr_applied r = true ->
+         let ext :=
+           extract (schema_of c ver) (tr_of c ver) true (fst (run c ver ops))
+             (ps_leaves (mr_set r)) in
+         plain ext = true ->
+         conforms (schema_of c ver) (tr_of c ver) false ext = true ->
+         leaves_are_leaves (schema_of c ver) (tr_of c ver) (fst (run c ver ops)) (mr_set r) ->
+         exists mf'' : managed,
+           apply_op c (ver, fst (run c ver ops)) (ver, ext) ver (snd (run c ver ops)) mgr false =
+           UOk
+             (if cfg_return_input_on_noop c then Some (ver, fst (run c ver ops)) else None, mf'') /\
+           same_records (snd (run c ver ops)) mf''.
+Proof. exact extract_apply_back_along_histories_general. Qed.
+Print Assumptions C07_extract_apply_back_along_every_history.
+
+Theorem C07_extract_apply_back_as_stated_refuted :
+  setting_ok m_config m_R "v1" /\
+         Forall (op_ok m_config "v1") m_ops /\
+         dup_free (schema_of m_config "v1") (tr_of m_config "v1") (fst (run m_config "v1" m_ops)) =
+         true /\
+         cfg_return_input_on_noop m_config = false /\
+         mf_get "a" (snd (run m_config "v1" m_ops)) = Some m_rec_a /\
+         mr_applied m_rec_a = true /\
+         (let ext :=
+            extract (schema_of m_config "v1") (tr_of m_config "v1") true
+              (fst (run m_config "v1" m_ops)) (ps_leaves (mr_set m_rec_a)) in
+          plain ext = true /\
+          conforms (schema_of m_config "v1") (tr_of m_config "v1") false ext = true /\
+          ~
+          leaves_are_leaves (schema_of m_config "v1") (tr_of m_config "v1")
+            (fst (run m_config "v1" m_ops)) (mr_set m_rec_a) /\
+          ~
+          (exists mf'' : managed,
+             apply_op m_config ("v1", fst (run m_config "v1" m_ops)) (
+               "v1", ext) "v1" (snd (run m_config "v1" m_ops)) "a" false = 
+             UOk (None, mf'') /\ same_records (snd (run m_config "v1" m_ops)) mf'')).
+Proof. exact extract_apply_back_along_histories_as_stated_refuted. Qed.
+Print Assumptions C07_extract_apply_back_as_stated_refuted.
+
+Theorem C07_extract_apply_back_record_condition_necessary :
+  forall (c : config) (R : typeref -> Prop) (ver : string) (live : value) 
+           (mf : managed) (mgr : string) (r : mrec) (cfg : value) (force : bool) 
+           (o : option tv) (mf'' : managed) (set0 : pset),
+         setting_ok c R ver ->
+         state_ok c ver live mf ->
+         op_ok c ver (HApply mgr cfg force) ->
+         mf_get mgr mf = Some r ->
+         to_field_set (schema_of c ver) (tr_of c ver) cfg = Some set0 ->
+         apply_op c (ver, live) (ver, cfg) ver mf mgr force = UOk (o, mf'') ->
+         same_records mf mf'' -> ps_equals set0 (mr_set r) = true /\ mr_applied r = true.
+Proof. exact extract_apply_back_record_condition_necessary. Qed.
+Print Assumptions C07_extract_apply_back_record_condition_necessary.
+
+Theorem C07_extract_back_example :
+  mf_get "a" (snd (run ex_config "v1" hx_ops)) = Some xb_rec /\
+         mr_applied xb_rec = true /\
+         extract ex_schema ex_rt true (fst (run ex_config "v1" hx_ops))
+           (ps_leaves (mr_set xb_rec)) = xb_ext /\
+         (exists mf'' : managed,
+            apply_op ex_config ("v1", fst (run ex_config "v1" hx_ops)) (
+              "v1", xb_ext) "v1" (snd (run ex_config "v1" hx_ops)) "a" false = 
+            UOk (None, mf'') /\ same_records (snd (run ex_config "v1" hx_ops)) mf'') /\
+         apply_op ex_config ("v1", hx_obj) ("v1", xb_ext) "v1" hx_mf "a" false =
+         UOk (None, hx_mf).
+Proof. exact extract_back_example. Qed.
+Print Assumptions C07_extract_back_example.
+
